@@ -296,12 +296,14 @@ class StereoMolGraph(MolGraph):
             if all(atom is None or atom in atom_set for atom in atoms_set):
                 new_graph.set_atom_stereo(atoms_atom_stereo)
 
-        for _bond, bond_stereo in self._bond_stereo.items():
+        for bond, bond_stereo in self._bond_stereo.items():
             if all(
                 atom is None or atom in atom_set
                 for atom in bond_stereo.atoms
             ):
-                new_graph.set_bond_stereo(bond_stereo)
+                # like copy(): the descriptor is kept as it is, also when
+                # its bond has been removed from the graph
+                new_graph._bond_stereo[bond] = bond_stereo
         return new_graph
 
     def enantiomer(self) -> Self:
